@@ -356,6 +356,51 @@ def parse_eval(ck, name, out, templates, judge_text):
     return ints(m.group(1)), dict(zip(vv[0::2], vv[1::2])), ints(h.group(1)), out
 
 
+def ingest_hypotheses(c):
+    """the hypotheses of flamegraph_nests_from_ingest, evaluated on the INPUT of an e2e case (and on the stored rows for the
+    joint parent determination): every profile stored, selected values >= 0, sum of value x depth < 2^63, one parent per node id
+    over all stored rows.  -> expected flame graph total, or None when the theorem does not apply"""
+    if c["kind"] != "e2e" or not c.get("profs"):
+        return None
+    total, weight, parent = 0, 0, {}
+    for p in c["profs"]:
+        if p["err"] != "" or p.get("bad") in ("trunc", "garbage"):
+            return None
+        k = next((i for i, t in enumerate(p["st"]) if t == c["sel"]), None)
+        for r in p["rows"] or []:
+            if parent.setdefault(r["i"], r["p"]) != r["p"]:
+                return None
+        if k is None:
+            continue
+        for sm in p["samples"] or []:
+            v = sm["values"][k]
+            if v < 0:
+                return None
+            total += v
+            weight += v * max(1, len(sm["stack"]))
+    return total if weight < (1 << 63) else None
+
+
+def levels_nest_py(levels, total):
+    """independent reading of the conclusion of levels_nest on the observed levels (4 numbers per bar)"""
+    if not levels or levels[0] != [0, total, 0, 0]:
+        return False
+    prev = [(0, total)]
+    for lv in levels[1:]:
+        cur, x = [], 0
+        for j in range(0, len(lv), 4):
+            off, tot = lv[j], lv[j + 1]
+            if off < 0 or tot < 0:
+                return False
+            s0 = x + off
+            if not any(a <= s0 and s0 + tot <= b for a, b in prev):
+                return False
+            cur.append((s0, s0 + tot))
+            x = s0 + tot
+        prev = cur
+    return True
+
+
 def projection_agrees(c):
     """the harness' SQL emulation (mrows) against an independent projection of the observed stored rows:
     per (parent, fn, id) key the wrapped sums of self and total must agree (linear time; this ties the rows fed to
@@ -596,6 +641,23 @@ def run_corr(ck):
     ck.obligation("city16 (model of city.CH64 on 16 bytes) = implementation on %d buffers" % len(hashes), not hm, "ids %s" % hm[:10])
     ck.obligation("correspondence: post_process / merge_trie / bfs = implementation on %d cases" % len(tcases), not mism,
                   "mismatching case ids: %s" % mism[:10])
+    # the end-to-end theorem against the implementation: whenever the INPUT of a case meets the hypotheses of
+    # flamegraph_nests_from_ingest, the flame graph the service answered must have the conclusion (read here independently of Coq)
+    applies = [(c, ingest_hypotheses(c)) for c in tcases]
+    # (the walked triples are not visible here: a profile whose triples collide under the real hash is known from the Coq run)
+    collided = set(ck.extra.get("hypothesis_fails_in_cases", [])) | {i for i, r in spec.items() if r in (3, 4)}
+    applies = [(c, t) for c, t in applies if t is not None and c["id"] not in collided]
+    e2e_bad = [c["id"] for c, t in applies if not c.get("svc") or c["svc"].get("err") or c["svc"].get("total") != t or
+               not levels_nest_py(c["svc"].get("levels") or [], t)]
+    ck.extra["cases_meeting_hypotheses_of_flamegraph_nests_from_ingest"] = len(applies)
+    ck.obligation("flamegraph_nests_from_ingest against the service: %d e2e cases meet its hypotheses on their input (non-negative selected values, "
+                  "no overflow, one parent per stored node id); for each the answered flame graph has level 0 = [0, sum of the selected values) "
+                  "and every bar inside a bar one level up" % len(applies), len(applies) > 0 and not e2e_bad, "case ids %s" % e2e_bad[:10])
+    if e2e_bad:
+        worst = min((byid[i] for i in e2e_bad), key=case_size)
+        ck.violation({"property": "C16", "kind": "the flame graph of profiles meeting the hypotheses of flamegraph_nests_from_ingest does not nest / has another total",
+                      "case": slim(worst), "answered": {k: worst["svc"].get(k) for k in ("levels", "total")},
+                      "replay": "write the case as one JSON line and run: proftree --cases <file>"})
     viol = [i for i, r in spec.items() if r == 2]
     findings = ck.known_findings()
     # results 3 / 4 are the two recorded node-id collision findings, keyed by the collision itself: 3 = the hypothesis of
